@@ -9,14 +9,14 @@ CONSTANT Depth
 VARIABLE hist
 
 Exp == [reply |-> last'.reply, calls |-> last'.calls, hookarg |-> last'.hookarg, upd |-> last'.upd, hassnap |-> last'.hassnap, snap |-> last'.snap,
-        cache |-> cache']
+        cache |-> cache', rerr |-> rerr', err |-> last'.err]
 GInit == \E id \in ShapeIds(Families) :
             InitWith(ShapeOf(id)) /\ hist = [sid |-> id, path |-> <<>>]
 GNext == \E req \in ReqsOf(shape) :
-            Step(req) /\ hist' = [hist EXCEPT !.path = Append(@, [req |-> req, cache |-> cache'])]
+            Step(req) /\ hist' = [hist EXCEPT !.path = Append(@, [req |-> req, cache |-> cache', rerr |-> rerr'])]
 GSpec == GInit /\ [][GNext]_<<vars, hist>>
 
-View == <<shape, cache>>
+View == <<shape, cache, rerr>>
 Bound == TLCGet("level") <= Depth
 EmitShape == (TLCGet("level") = 1) => PrintT(<<"SHAPE", ToJson([sid |-> hist.sid, shape |-> shape, cache |-> cache])>>)
 EmitStep == PrintT(<<"BEH", ToJson([sid |-> hist.sid, path |-> hist.path, req |-> last'.req, exp |-> Exp])>>)
